@@ -713,5 +713,7 @@ func VH_C07_tosvg_Q() {
 			good = good && near(acc[i][j], want[i][j])
 		}
 	}
+	// D64: no translation in canvas space but a flip offset h in SVG space
+	vKnown("D64", tx == 0 && ty == 0 && h != 0)
 	vAssert("C07.tosvg.same_transformation", good)
 }
